@@ -57,7 +57,7 @@ def run_one(args):
             env = dict(os.environ, TXSA_EVIDENCE_OUT=os.path.join(
                 tmp, 'ev-%s.json' % pid), TXSA_NO_REPLAY='1')
             pr = subprocess.run(
-                [os.path.join(VERIF, 'check'), pid, '--src', tmp],
+                [os.path.join(VERIF, 'check'), pid, '--tier', 'quick', '--src', tmp],
                 capture_output=True, text=True, env=env, timeout=300)
             keys = re.findall(r'^FINDING (\S+)', pr.stdout, re.M)
             results.append((pid, pr.returncode, keys, pr.stdout[-800:]))
@@ -111,8 +111,9 @@ def run_revert(mut, src_root):
         for pid in mut['props']:
             env = dict(os.environ, TXSA_EVIDENCE_OUT=os.path.join(
                 tmp, 'ev-%s.json' % pid))
-            r = subprocess.run([os.path.join(VERIF, 'check'), pid, '--src',
-                                tmp], capture_output=True, text=True,
+            r = subprocess.run([os.path.join(VERIF, 'check'), pid, '--tier',
+                                'quick', '--src', tmp],
+                               capture_output=True, text=True,
                                env=env, timeout=300)
             keys = re.findall(r'^FINDING (\S+)', r.stdout, re.M)
             exp = mut.get('expect', [])
@@ -127,6 +128,23 @@ def run_revert(mut, src_root):
         return mid, 'caught' if ok else 'MISSED', '; '.join(why)
     finally:
         shutil.rmtree(tmp, ignore_errors=True)
+
+
+def run_subset(pid, src_root, jobs=16):
+    """Rule liveness for one property (used by the thorough tier): apply the
+    property's mutants to scratch copies of the CURRENT tree."""
+    corpus = [dict(m, props=[pid]) for m in load_corpus()
+              if pid in m['props']]
+    if not corpus:
+        return {'mutants': 0}
+    with multiprocessing.Pool(min(jobs, len(corpus))) as pool:
+        res = pool.map(run_one, [(m, src_root) for m in corpus])
+    summary = {}
+    for mid, status, why in res:
+        summary[status] = summary.get(status, 0) + 1
+    return {'mutants': len(corpus), 'summary': summary,
+            'results': [{'mutant': mid, 'status': status,
+                         'detail': why[:160]} for mid, status, why in res]}
 
 
 def main(argv=None):
